@@ -62,8 +62,14 @@ fn history(out: &mut Out, sigs: &[Object], nontrivial: bool) {
     out.case(&format!("dir {}", ins.join(" ")), &outs.join(" "), nontrivial);
 }
 
+/// An engine reading with every reported state in turn: the director's verdict is a function of the speed alone
+/// (the token carries only the speed; a verdict that starts to depend on the state shows as a disagreement).
 fn engine(rpm: u16) -> Object {
-    Object::Engine(Engine { driver_demand: 1, actual_engine: 2, rpm, state: EngineState::Request })
+    use std::sync::atomic::{AtomicUsize, Ordering};
+    static K: AtomicUsize = AtomicUsize::new(0);
+    let k = K.fetch_add(1, Ordering::Relaxed);
+    let state = [EngineState::Request, EngineState::Stopping, EngineState::NoRequest, EngineState::Starting, EngineState::Request][k % 5];
+    Object::Engine(Engine { driver_demand: (k % 3) as u8, actual_engine: (k % 7) as u8, rpm, state })
 }
 
 fn rot(source: u8, roll_deg: f32, pitch_deg: f32, yaw_deg: f32, absolute: bool) -> Object {
